@@ -294,7 +294,7 @@ def fk5_quantities(nm, j):
     L, B, R = P.geometric_heliocentric_position(Epoch(j), tofk5=False)
     T = (j - J2000) / 36525.0
     lp = math.radians(L._deg - T * (1.397 + 0.00031 * T))
-    return (B._deg, math.cos(lp) - math.sin(lp), math.cos(lp) + math.sin(lp))
+    return (B._deg, math.cos(lp) - math.sin(lp), math.cos(lp) + math.sin(lp), math.sin(lp), math.cos(lp))
 
 
 def check_fk5(case):
@@ -333,7 +333,7 @@ def run_fk5_zeros(spec, ctx):
         j2 = j + step
         cur = fk5_quantities(nm, j2)
         ctx.evals += 1
-        for k, what in enumerate(("latitude = 0", "cos - sin = 0", "cos + sin = 0")):
+        for k, what in enumerate(("latitude = 0", "cos - sin = 0", "cos + sin = 0", "sin l' = 0", "cos l' = 0")):
             if (prev[k] > 0.0) != (cur[k] > 0.0) and abs(prev[k] - cur[k]) < 1.0:
                 lo, hi, slo = j, j2, prev[k] > 0.0
                 while True:
@@ -597,6 +597,141 @@ def check_term(case):
     return out
 
 
+# -- instants at which two consecutive rows of a series have the same argument; zeros of whole order sums ----------
+
+def float_sum(tab, t):
+    tot = 0.0
+    for i, ser in enumerate(tab):
+        tot += math.fsum(A * math.cos(B + C * t) for A, B, C in ser) * t ** i
+    return tot / 1e8
+
+
+def check_evaluator_at(nm, j, what):
+    """vsop_pos against a plain float summation of the same tables, all three coordinates, at one instant."""
+    M, P = mod(nm)
+    e = Epoch(j)
+    t = (e.jde() - J2000) / 365250.0
+    try:
+        v = vsop_pos(e, M.VSOP87_L, M.VSOP87_B, M.VSOP87_R)
+    except Exception as ex:
+        return [("exception", "vsop_pos raised %r at JDE %r (%s)" % (ex, j, what), None)]
+    out = []
+    dl = float_sum(M.VSOP87_L, t)
+    dd = (v[0].rad() - dl) % (2.0 * math.pi)
+    dd = min(dd, 2.0 * math.pi - dd)
+    if dd > 1e-11 + 1e-13 * abs(dl):
+        out.append(("evaluator_L", "%s: vsop_pos longitude differs from the plain sum by %.3g rad at JDE %r (%s)"
+                    % (nm, dd, j, what), dd))
+    db = abs(v[1].rad() - float_sum(M.VSOP87_B, t))
+    if db > 1e-11:
+        out.append(("evaluator_B", "%s: vsop_pos latitude differs from the plain sum by %.3g rad at JDE %r (%s)"
+                    % (nm, db, j, what), db))
+    dr = abs(v[2] - float_sum(M.VSOP87_R, t))
+    if dr > 1e-11:
+        out.append(("evaluator_R", "%s: vsop_pos radius differs from the plain sum by %.3g AU at JDE %r (%s)"
+                    % (nm, dr, j, what), dr))
+    return out
+
+
+def coincidence_cases(tier):
+    """(planet, coordinate, order, row): rows `row` and `row + 1` of the series have equal arguments B + C t at
+    t* = (B1 - B2) / (C2 - C1); kept when t* lies in the range of validity.  Quick: the first 12 rows of every
+    series (the large amplitudes); thorough: every consecutive pair."""
+    cases = []
+    for nm in NAMES:
+        M, P = mod(nm)
+        for coord, tab in (("L", M.VSOP87_L), ("B", M.VSOP87_B), ("R", M.VSOP87_R)):
+            for order, ser in enumerate(tab):
+                for idx in range(len(ser) - 1):
+                    if tier != "thorough" and idx >= 12:
+                        break
+                    (A1, B1, C1), (A2, B2, C2) = ser[idx], ser[idx + 1]
+                    if C1 == C2:
+                        continue
+                    ts = (B1 - B2) / (C2 - C1)
+                    if -3.99 < ts < 1.99:
+                        cases.append({"planet": nm, "coord": coord, "order": order, "row": idx, "t": ts})
+    return cases
+
+
+def check_coincidence(case):
+    j = J2000 + 365250.0 * case["t"]
+    pts = [j, math.nextafter(j, math.inf), math.nextafter(j, -math.inf)]
+    out = []
+    for x in pts:
+        out += check_evaluator_at(case["planet"], x, "rows %d and %d of %s%d have the same argument"
+                                  % (case["row"], case["row"] + 1, case["coord"], case["order"]))
+    return out
+
+
+def run_coincidences(block, ctx):
+    for case in block:
+        ctx.evals += 3
+        ctx.nt_count += 1
+        for site, msg, dev in check_coincidence(case):
+            ctx.viol(case, msg, dev=dev, site="coincidence_" + site)
+        ctx.outcome((case["planet"], case["coord"], case["order"]))
+    ctx.obs(block[0], block[-1])
+    ctx.sample(block[0])
+
+
+def order_zero_specs(tier):
+    """(planet, coordinate, order, start year, span in years, step in days)."""
+    out = []
+    for nm in NAMES:
+        M, P = mod(nm)
+        slow = nm in ("Jupiter", "Saturn", "Uranus", "Neptune")
+        if tier != "thorough" and not slow:
+            continue
+        for coord, tab in (("L", M.VSOP87_L), ("B", M.VSOP87_B), ("R", M.VSOP87_R)):
+            for order in range(1, len(tab)):
+                if not tab[order]:
+                    continue
+                for y in ((-1990, -1000, 0, 1000, 2000, 3000) if tier == "thorough" else (-1990, 1000, 3000)):
+                    out.append((nm, coord, order, y, 990 if tier == "thorough" else 500, 20.0 if slow else 3.0))
+    return out
+
+
+def run_order_zeros(spec, ctx):
+    """The sum of ONE order of a series (L1, R2, ...) is scanned; every sign change is narrowed to adjacent doubles
+    and the evaluator compared with the plain sum there: an accumulation that stops 'when the next order no longer
+    changes the result' stops for good where that order happens to pass through zero."""
+    nm, coord, order, y0, span, step = spec
+    M, P = mod(nm)
+    ser = {"L": M.VSOP87_L, "B": M.VSOP87_B, "R": M.VSOP87_R}[coord][order]
+    f = lambda j: math.fsum(A * math.cos(B + C * ((j - J2000) / 365250.0)) for A, B, C in ser)
+    j = y2jde(y0)
+    end = min(j + span * 365.25, y2jde(4000) - 3.0)
+    prev = f(j)
+    found = 0
+    while j < end:
+        j2 = j + step
+        cur = f(j2)
+        ctx.evals += 1
+        if (prev > 0.0) != (cur > 0.0):
+            lo, hi, slo = j, j2, prev > 0.0
+            while True:
+                mid = lo + (hi - lo) / 2.0
+                if mid <= lo or mid >= hi:
+                    break
+                if (f(mid) > 0.0) == slo:
+                    lo = mid
+                else:
+                    hi = mid
+            found += 1
+            for x in (lo, hi, math.nextafter(lo, -math.inf), math.nextafter(hi, math.inf)):
+                ctx.evals += 1
+                ctx.nt_count += 1
+                case = {"planet": nm, "jde": x, "what": "%s%d passes through zero" % (coord, order)}
+                for site, msg, dev in check_evaluator_at(nm, x, case["what"]):
+                    ctx.viol(case, msg, dev=dev, site="order_zero_" + site)
+        j, prev = j2, cur
+    ctx.count("order_sum_zero_crossings", found)
+    ctx.outcome((nm, coord, order))
+    ctx.obs(spec, found)
+    ctx.sample({"planet": nm, "jde": y2jde(y0), "what": "sample"})
+
+
 def term_cases(tier):
     cases = []
     for nm in NAMES:
@@ -666,6 +801,10 @@ def clauses(tier):
                lambda c: [m for _, m, _ in check_second(c)], floor=100),
         Clause("term_zero_crossings", chunks(term_cases(tier), 64), run_terms,
                lambda c: [m for _, m, _ in check_term(c)], floor=300),
+        Clause("row_coincidences", chunks(coincidence_cases(tier), 64), run_coincidences,
+               lambda c: [m for _, m, _ in check_coincidence(c)], floor=300),
+        Clause("order_sum_zeros", order_zero_specs(tier), run_order_zeros,
+               lambda c: [m for _, m, _ in check_evaluator_at(c["planet"], c["jde"], c.get("what", ""))], floor=300),
         Clause("fk5_zero_crossings", fk5_specs(tier), run_fk5_zeros, lambda c: [m for _, m, _ in check_fk5(c)],
                floor=500),
         Clause("tables", [[{"planet": nm} for nm in NAMES]], run_tables,
